@@ -200,6 +200,53 @@ def match_known(prop, fam, case, verdict, known):
     return None
 
 
+def _raised_in_repo(tb) -> bool:
+    from harness.lib import REPO
+    root = str(Path(REPO).resolve())
+    while tb is not None:
+        f = tb.tb_frame.f_code.co_filename
+        if str(Path(f).resolve()).startswith(root + os.sep) or "/pyttb/" in f.replace("\\", "/") and "/harness/" not in f:
+            return True
+        tb = tb.tb_next
+    return False
+
+
+def robust_evaluate(fam, cases, chunk=40):
+    """Evaluate in chunks, then case by case inside a chunk that raises.  A case whose evaluation raises INSIDE the package
+    under test (the family called it on an input it has to answer) is a violation with that case as the replay; an exception
+    raised by the harness itself while digesting the implementation's answer is a broken correspondence (`corr`)."""
+    from harness.lib import DriverError
+    out = []
+    for i in range(0, len(cases), chunk):
+        part = cases[i:i + chunk]
+        try:
+            vs = fam.evaluate(part)
+            assert len(vs) == len(part)
+            out += vs
+            continue
+        except DriverError:
+            raise
+        except Exception:  # noqa: BLE001
+            pass
+        for c in part:
+            try:
+                v = fam.evaluate([c])
+                assert len(v) == 1
+                out.append(v[0])
+            except DriverError:
+                raise
+            except Exception as e:  # noqa: BLE001
+                tb = traceback.extract_tb(e.__traceback__)
+                where = "; ".join(f"{Path(fr.filename).name}:{fr.lineno} {fr.name}" for fr in tb[-4:])
+                if _raised_in_repo(e.__traceback__):
+                    out.append(Verdict("violation", f"the implementation raised {type(e).__name__}: {str(e)[:200]} on an input it has "
+                                       f"to answer ({where})", {"raised": type(e).__name__, "msg": str(e)[:300]}, None, None, ["impl-raised"]))
+                else:
+                    out.append(Verdict("corr", f"the harness could not digest the implementation's answer: {type(e).__name__}: "
+                                       f"{str(e)[:200]} ({where})", {"raised": type(e).__name__, "msg": str(e)[:300]}, None, None, ["harness-raised"]))
+    return out
+
+
 def shrink(fam, case, is_bad, budget=60):
     """Greedy shrinking with the family's candidate generator."""
     best = case
@@ -212,7 +259,7 @@ def shrink(fam, case, is_bad, budget=60):
             if steps > budget:
                 break
             try:
-                v = fam.evaluate([cand])[0]
+                v = robust_evaluate(fam, [cand])[0]
             except Exception:  # noqa: BLE001
                 continue
             if is_bad(v):
@@ -336,8 +383,14 @@ def _main(prop, args, seed, t0):
         ncorpus = len(cases)
         cases += fam.gen(frng, eff_tier)
         tf = time.time()
-        verdicts = fam.evaluate(cases)
-        assert len(verdicts) == len(cases), f"{name}: {len(verdicts)} verdicts for {len(cases)} cases"
+        try:
+            verdicts = fam.evaluate(cases)
+            assert len(verdicts) == len(cases), f"{name}: {len(verdicts)} verdicts for {len(cases)} cases"
+        except Exception as e0:  # noqa: BLE001
+            # Never on the unchanged tree.  On a changed tree the implementation may raise where the family calls it
+            # bare (on inputs it must answer), or return something the family cannot digest: find the cases, do not die.
+            log(f"[{prop}] {name}: evaluation raised {type(e0).__name__}: {str(e0)[:160]} - evaluating case by case")
+            verdicts = robust_evaluate(fam, cases)
         nfam_nt = 0
         for c, v in zip(cases, verdicts):
             evaluations += 1
@@ -392,7 +445,7 @@ def _main(prop, args, seed, t0):
             c2 = shrink(fam, c, lambda vv: vv.status == "violation")
             if match_known(prop, name, c2, v, known) is not None:
                 c2 = c  # do not shrink into a listed finding
-            v2 = fam.evaluate([c2])[0] if c2 is not c else v
+            v2 = robust_evaluate(fam, [c2])[0] if c2 is not c else v
             p = write_replay(prop, "failing-input", name, c2, v2, {"broken": broken} if broken else None)
             replay_paths.append(str(p))
             out_lines.append(f"VIOLATION property={prop} replay={p}")
